@@ -561,8 +561,11 @@ fn views(out: &mut Out, rng: &mut Rng, thorough: bool) {
 					out.raw(&format!("#ORACLE-FAIL C07 view at size {}: get_last_n_insertions({}) returns {} elements, not the last {} below the size newest first", s, cnt, got.len(), want.len()));
 				}
 			}
-			for (i1, m, mp) in [(0u64, 1000u64, None), (1, 3, None), (rng.below(s + 2), rng.range(0, 6), None), (1, 1000, Some(rng.below(size + 3))), (rng.below(s + 2), 4, Some(s))] {
+			for (i1, m, mp) in [(0u64, 1000u64, None), (1, 3, None), (rng.below(s + 2), rng.range(0, 6), None), (1, 1000, Some(rng.below(size + 3))), (rng.below(s + 2), 4, Some(s)), (1, 1000, Some(s + 1)), (1, 1000, Some(size + 1000)), (s.saturating_sub(2), 1000, Some(u64::MAX)), (s + 5, 3, Some(s + 50))] {
 				let (last, l) = v.elements_from_pmmr_index(i1, m, mp);
+				if last > s.max(i1.saturating_sub(1)) {
+					out.raw(&format!("#ORACLE-FAIL C07 view at size {}: elements_from_pmmr_index({}, {}, {:?}) walked to index {} beyond the MMR", s, i1, m, mp, last));
+				}
 				let txt: Vec<String> = l.iter().map(|e| hex(&e.0)).collect();
 				out.line(
 					&format!("pmmr velems {} {} {} {}", s, i1, m, mp.map(|x| x.to_string()).unwrap_or("none".into())),
@@ -811,6 +814,39 @@ fn views(out: &mut Out, rng: &mut Rng, thorough: bool) {
 			if !pruned.contains(&li) {
 				pruned.push(li);
 			}
+			// leaf iterators over the backend with PRUNED leaves, for every from_idx, through the PMMR
+			// handle, a ReadonlyPMMR and the backend itself. Spec: exactly the unpruned leaves'
+			// insertion indices >= from, ascending, each mapping back to the position leaf_pos_iter yields.
+			{
+				use grin_core::core::pmmr::Backend;
+				let lp_h: Vec<u64> = p.leaf_pos_iter().collect();
+				for from in 0..=n + 1 {
+					if n > 24 && !rng.chance(1, 3) && from > 3 {
+						continue;
+					}
+					let via_handle: Vec<u64> = p.leaf_idx_iter(from).collect();
+					out.line(&format!("pmmr vleafidx {} {}", size, from), &nat_list(&via_handle));
+					let want: Vec<u64> = (from..n).filter(|i| !pruned.contains(i)).collect();
+					if via_handle != want {
+						out.raw(&format!("#ORACLE-FAIL C07 leaf_idx_iter({}) over {} leaves with leaves {:?} pruned yields {:?}, not the unpruned insertion indices {:?}", from, n, pruned, via_handle, want));
+					}
+					if via_handle.iter().any(|i| !lp_h.contains(&pmmr::insertion_to_pmmr_index(*i))) {
+						out.raw(&format!("#ORACLE-FAIL C07 leaf_idx_iter({}) yields an index whose position leaf_pos_iter does not yield ({} leaves, pruned {:?}): {:?}", from, n, pruned, via_handle));
+					}
+				}
+				out.line(&format!("pmmr vleafpos {}", size), &nat_list(&lp_h));
+				drop(p);
+				let direct: Vec<Vec<u64>> = (0..=n + 1).map(|f| ba.leaf_idx_iter(f).collect()).collect();
+				let ro = ReadonlyPMMR::at(&ba, size);
+				for from in 0..=n + 1 {
+					let a: Vec<u64> = ro.leaf_idx_iter(from).collect();
+					let want: Vec<u64> = (from..n).filter(|i| !pruned.contains(i)).collect();
+					if a != want || direct[from as usize] != want {
+						out.raw(&format!("#ORACLE-FAIL C07 leaf_idx_iter({}) through ReadonlyPMMR / the backend differs from the unpruned insertion indices ({} leaves, pruned {:?}): {:?} / {:?}", from, n, pruned, a, direct[from as usize]));
+					}
+				}
+			}
+			let p = PMMR::at(&mut ba, size);
 			out.line(&format!("pmmr vroot {}", size), &root_str(p.root()));
 			out.line(&format!("pmmr vpeaks {}", size), &hashes(&p.peaks()));
 			let root = p.root().unwrap();
